@@ -84,8 +84,20 @@ def verdictStr : Verdict → String
   | .spuriousConnError => "spurious-connection-error"
   | .late => "late"
   | .raised => "raised"
+  | .needlessTimeout => "needless-timeout"
 
 def lastState (l : List (St String)) : St String := l.getLast?.getD {}
+
+/-- `[action, spec, bad, re, readyMs]`: a line the peer made readable, in the form of a `peerEmit` label plus the time -/
+def parseArrival (known : List String) (j : Json) : R (Arrival String) := do
+  match ← arr j with
+  | [act, sp, bad, re, t] =>
+    let text ← act.getStr?
+    let sp ← optStr sp
+    let (err, rest) := splitErr text
+    return { line := { seq := 0, err := err, action := rest, spec := sp, event := isEvent known text sp || (← bad.getBool?),
+                       re := ← optNat re }, readyMs := ← t.getNat? }
+  | _ => throw s!"bad arrival {j.compress}"
 
 /-! ### shutdown protocol model -/
 section
@@ -177,6 +189,7 @@ def parseOp (s : String) : R Op :=
 def parseEv (j : Json) : R Ev := do
   match ← arr j with
   | [.str "peerSend"] => return .peerSend
+  | [.str "peerPart"] => return .peerPart
   | [.str "peerFin"] => return .peerFin
   | [.str "peerRst"] => return .peerRst
   | [.str "call", o, r] => return .call (← parseOp (← o.getStr?)) (← parseOut r)
@@ -270,6 +283,10 @@ def handle (j : Json) : R Json := do
     | .error i => return Json.mkObj [("refused_at", jnat i), ("final", Json.null)]
   | "judge" =>
     let callers ← (← fldArr j "callers").mapM parseCaller
+    let arrivals : List (Arrival String) ← match j.getObjVal? "arrivals" with
+      | .ok a => do (← arr a).mapM (parseArrival known)
+      | .error _ => pure []
+    let marginMs : Nat := (j.getObjValAs? Nat "marginMs").toOption.getD 1500
     let closedAt ← fldNats j "closedAt"
     let slack ← fldNat j "slackMs"
     let states := observe tbl {} labels
@@ -296,7 +313,15 @@ def handle (j : Json) : R Json := do
       ("verdicts", jstrs (callers.map (fun c =>
         -- the state in which the caller's `put` was made (state `putAt` of the observed run), if it made one
         let putClosing := c.id < final.nextId && ((states.drop c.putAt).head?.map (·.closing)).getD false
-        verdictStr (judgeCaller tbl final closedAt everClosing waitMs putClosing c)))),
+        -- a connection error is in order when a shutdown / loss of the connection had begun by the time the caller returned
+        -- (not: at some time of the run - every run ends with a disconnect())
+        let endClosing := ((states.drop c.endAt).head?.map (·.closing)).getD everClosing
+        -- the request of this caller: the label at which it was queued
+        let needless := match (labels.drop c.putAt).head? with
+          | some (.put r) => c.id < final.nextId &&
+              needlessTimeoutB tbl ⟨c.id, r⟩ c.tPut Generated.C11.waitTimeoutMs marginMs arrivals
+          | _ => false
+        verdictStr (judgeCaller tbl final closedAt endClosing waitMs putClosing c needless)))),
       ("final", summary final)]
   | _ => throw s!"C11: unknown verb {k}"
 
